@@ -12,6 +12,7 @@ CONSTANTS
   DirectOpen = FALSE
   QueryOpen = FALSE
   QueryTouches = FALSE
+  Routes = {"contract", "direct", "static"}
   TallyOnly = FALSE
 VIEW view
 CONSTRAINT Viable
